@@ -17,7 +17,7 @@ from vlib import core, tlc
 
 SUB = "background"
 
-CURRENT = {"WakeRule": '"always"', "BottomRule": '"l0limit"', "LevelLoop": '"once"', "RegisterRule": '"first"'}
+CURRENT = {"WakeRule": '"always"', "BottomRule": '"l0limit"', "LevelLoop": '"once"', "RegisterRule": '"first"', "MaxFail": 0}
 
 # constants of a configuration and the matching driver arguments
 CONFIGS = {
@@ -65,6 +65,19 @@ def model_check(ctx):
         r["invariants"] = SAFETY + ["PROPERTY " + p + " (Spec with weak fairness of every task / writer / close step)" for p in LIVE]
         ctx.add_tlc(r)
         os.remove(r["out"])
+
+
+def model_check_failures(ctx):
+    """the same protocol with one injected flush / compaction failure (sticky background error, stall controller shut
+    down): every commit still returns, close still returns"""
+    c = dict(CONFIGS["base"], **CURRENT)
+    c.update(MaxFail=1, MaxCommits=ctx.pick(4, 5))
+    r = tlc.run(SUB, "Background", "Background_fail.cfg", cfg_text=_cfg(c, SAFETY, LIVE), timeout=3000, coverage=False,
+                out_name="bg_live_%s_fail" % ctx.pid)
+    r["constants"] = ["%s=%s" % kv for kv in c.items()]
+    r["invariants"] = SAFETY + ["PROPERTY " + p for p in LIVE]
+    ctx.add_tlc(r)
+    os.remove(r["out"])
 
 
 def _report(ctx, s, args):
